@@ -583,8 +583,8 @@ Proof.
         (* a pop from the map happens only when the ready slot cannot be popped *)
         destruct (ws_ready s) as [r|] eqn:R; [|discriminate].
         rewrite (B3 r eq_refl), N.eqb_refl in P. inversion P. }
-  destruct (ws_ready s) as [r|] eqn:R; [|exact Hmap].
-  destruct (ev_seq r =? ws_drain s) eqn:E; [|exact Hmap].
+  destruct (ws_ready s) as [r|] eqn:R; [|exact (Hmap P)].
+  destruct (ev_seq r =? ws_drain s) eqn:E; [|exact (Hmap P)].
   inversion P; subst. split.
   - unfold buffered. cbn [ws_ready ws_completed]. rewrite R. apply Permutation_refl.
   - constructor; cbn [ws_ready ws_completed ws_drain]; auto. intros x Hx. discriminate.
